@@ -127,6 +127,11 @@ AddChunkR(b, len, m, kind) ==
             org |-> "chunk", kind |-> kind, dsz |-> DszOf("-", kind, m), dck |-> "dec"]
   IN Ret(Added(b, <<c>>, len), IF m \in DataModes THEN "ok" ELSE "err", m \notin DataModes)
 
+\* BlteFile::compress(data, cs, m): chunk automatically and build, in one call
+CompressR(len, cs, m) ==
+  LET r == AddR([B0 EXCEPT !.cs = cs, !.mode = m], len, "-", 0, "compress")
+  IN Ret([r.st EXCEPT !.table = "std"], r.res, r.may)
+
 \* ---- decoding, at chunk granularity ------------------------------------------------------------------
 \* positions (1-based) whose chunk was encrypted under a block index other than its position
 Misindexed(b) == {p \in 1..NChunks(b) : b.chunks[p].cipher = "S" /\ b.chunks[p].idx # p - 1}
@@ -214,8 +219,10 @@ Apply(b, e) ==
     [] e.op = "add_encrypted_data" -> AddEncR(b, e.len, e.cipher, e.idx)
     [] e.op = "add_chunk"          -> AddChunkR(b, e.len, e.mode, e.kind)
     [] e.op = "build"              -> BuildR(b, e.table)
+    [] e.op = "compress"           -> CompressR(e.len, e.n, e.mode)
 
 IsAdd(e) == e.op \in {"add_data", "add_mixed_data", "add_encrypted_data", "add_chunk"}
+Final(e) == e.op \in {"build", "compress"}
 
 \* ---- the state machine -------------------------------------------------------------------------------------
 VARIABLES b,        \* the builder
@@ -225,5 +232,5 @@ Init == b = B0 /\ phase = "open"
 Do(e) == /\ phase = "open"
          /\ LET r == Apply(b, e) IN
               IF r.res = "err" THEN b' = b /\ phase' = "failed"          \* the builder is consumed by a failed call
-              ELSE b' = r.st /\ phase' = IF e.op = "build" THEN "built" ELSE "open"
+              ELSE b' = r.st /\ phase' = IF Final(e) THEN "built" ELSE "open"
 =============================================================================
